@@ -1,10 +1,17 @@
-"""C13 - bounded run-time contract checks (see DESIGN.md)"""
-from props.common import bj
+"""C13 - the child pairing function of merge under a heap contract; the merge itself by bounded run-time contract checks"""
+from props.common import bj, HEAP_ASSUMPTIONS
 
-LEVEL = 'exploration'
-CONTRACT_MODULES = []
-DEDUCTIVE = []
-EXPLANATION = 'bounded stand-in: merge contract (complete, conservative, strict conflicts raise ValueError, a raising merge changes nothing) over generated tree pairs'
+LEVEL = 'other'
+CONTRACT_MODULES = ['contracts.c_heap']
+DEDUCTIVE = [{'fid': 'odml/base.py::Sectionable.contains', 'mode': 'heap'},
+             {'fid': 'odml/section.py::BaseSection.contains', 'mode': 'heap'}]
+TIMEOUT_S = 20
+REPLAY = 'heap'
+ASSUMPTIONS = HEAP_ASSUMPTIONS + [
+    'the Section type attribute of the objects involved is None or a str (precondition of the contains contracts)',
+    'merge / merge_check themselves (recursive, string normalisation, heap-modifying loops) are decided by the bounded stand-in only',
+]
+EXPLANATION = 'deductive: contains() - the function merge and merge_check use to pair a source child with its destination counterpart - returns the child Section of the same name and type / the child Property of the same name, and None exactly when there is none (for all heaps satisfying Inv); bounded stand-in: merge contract (complete, conservative, strict conflicts raise ValueError, a raising merge changes nothing) over generated tree pairs'
 
 def bounded_jobs(tier, seed):
     return [
